@@ -34,6 +34,7 @@ class ProgramOptionsSave(Contract):
         ex.default_tags = {'C13'}
         # ---- registration table: operator()(name, value<T>(...), help) calls in the constructor
         table = {}
+        bound = {}      # member variable -> option names bound to it
         for n in _walk(ctor):
             if n.get('kind') != 'CXXOperatorCallExpr':
                 continue
@@ -54,6 +55,12 @@ class ProgramOptionsSave(Contract):
             if T is None:
                 continue
             table.setdefault(name.split(',')[0], set()).add(T.strip())
+            # the member the option is bound to:  value<T>(&member)
+            for x in _walk(args[2]):
+                if x.get('kind') == 'UnaryOperator' and x.get('opcode') == '&':
+                    mem = [y.get('name') for y in _walk(x) if y.get('kind') == 'MemberExpr']
+                    if mem:
+                        bound.setdefault(mem[0], []).append(name.split(',')[0])
         if len(table) < 40:
             raise ExtractionError(f'ProgramOptions constructor: only {len(table)} option registrations recognised')
         # ---- save(): handled types and skipped names
@@ -94,6 +101,45 @@ class ProgramOptionsSave(Contract):
                 o = Obligation(f'ProgramOptions::save#opt.{name}.value_type_written', {'C13'}, [], z3.BoolVal(ok), 'postcondition',
                                None, f'option {name} has value type {T}; save() writes types {sorted(handled_n)} and std::string')
                 ex.obls.append(o)
+        # ---- legacy aliases: an alias the writer skips by name is bound to the same member as a canonical option that IS
+        # written; the run uses the alias value (both notify into the member), so the value the writer prints for the canonical
+        # option — taken from the variables map — must have been replaced by the alias value in parse()
+        parses = tu.funcs.get('vfps::ProgramOptions::parse', [])
+        if len(parses) != 1:
+            raise ExtractionError('ProgramOptions::parse not found')
+        copies = set()      # (canonical, alias): _vm.at(canonical).value() = _vm[alias].value()
+        for n in _walk(parses[0]):
+            if n.get('kind') in ('CXXOperatorCallExpr', 'BinaryOperator') and len(n.get('inner', [])) >= 2:
+                callee = n['inner'][0]
+                isassign = (n.get('kind') == 'BinaryOperator' and n.get('opcode') == '=') or \
+                           any((y.get('referencedDecl') or {}).get('name') == 'operator=' for y in _walk(callee))
+                if not isassign:
+                    continue
+                ops = n['inner'][-2:]
+                l_lits = [y.get('value', '').strip('"') for y in _walk(ops[0]) if y.get('kind') == 'StringLiteral']
+                r_lits = [y.get('value', '').strip('"') for y in _walk(ops[1]) if y.get('kind') == 'StringLiteral']
+                if len(l_lits) == 1 and len(r_lits) == 1:
+                    copies.add((l_lits[0], r_lits[0]))
+        nalias = 0
+        for mem, names in sorted(bound.items()):
+            canon = [nm for nm in names if nm not in skipped]
+            for alias in [nm for nm in names if nm in skipped]:
+                for c_ in canon:
+                    nalias += 1
+                    ok = (c_, alias) in copies
+                    ex.obls.append(Obligation(f'ProgramOptions::save#alias.{alias}.value_reaches_{c_}', {'C13'}, [], z3.BoolVal(ok), 'postcondition', None,
+                                              f'legacy option {alias} and {c_} are bound to the same member {mem}; save() skips {alias}, so parse() must copy its value into the stored value of {c_} (found copies {sorted(copies)})'))
+        # ---- the writer leaves out an entry only by NAME.  If it also leaves out entries whose defaulted() flag is set, then
+        # no stored value may have been changed in place (the copies above keep the flag): such an option would be dropped
+        skips_defaulted = False
+        for n in _walk(save):
+            if n.get('kind') == 'IfStmt':
+                thn = n['inner'][1]
+                if all(x.get('kind') in ('CompoundStmt', 'ContinueStmt') for x in _walk(thn)) and any(x.get('kind') == 'ContinueStmt' for x in _walk(thn)):
+                    if any(x.get('kind') == 'MemberExpr' and x.get('name') == 'defaulted' for x in _walk(n['inner'][0])):
+                        skips_defaulted = True
+        ex.obls.append(Obligation('ProgramOptions::save#skip.defaulted_entries_are_unmodified', {'C13'}, [], z3.BoolVal(not (skips_defaulted and copies)), 'postcondition', None,
+                                  f'save() skips defaulted entries: {skips_defaulted}; parse() changes stored values in place without clearing the flag: {sorted(copies)}'))
         # ---- alpha0: written as 0 only when the synchrotron frequency is the one in use (f_s != 0)
         if alpha_if is None:
             raise ExtractionError('ProgramOptions::save: alpha0 special case not found')
